@@ -53,6 +53,9 @@ type pskRewriter struct {
 	done           bool
 	Fired          bool
 	Identities     int // number of identities the genuine hello carried
+	// BinderMode (robustness scenarios): 0 = one binder per identity; 1 = the extra identity gets no binder (fewer binders
+	// than identities); 2 = one binder too many; 3 = the extra identity's binder is shorter than the hash
+	BinderMode int
 }
 
 func (f *pskRewriter) Closed() []byte { b := f.buf; f.buf = nil; return b }
@@ -108,7 +111,20 @@ func (f *pskRewriter) rewrite(rec []byte) []byte {
 	nid = append(nid, f.Extra...)
 	nid = append(nid, 0x12, 0x34, 0x56, 0x78)
 	nid = append(nid, ids...)
-	nbLen := (1 + hlen) + len(binders)
+	extraBinder := make([]byte, hlen)
+	kit.NewRng(uint64(len(f.Extra))*0x9e37 + uint64(f.Suite)).Fill(extraBinder)
+	var head, tail []byte // binder entries before / after the genuine one
+	switch f.BinderMode {
+	case 0:
+		head = append([]byte{byte(hlen)}, extraBinder...)
+	case 1:
+	case 2:
+		head = append([]byte{byte(hlen)}, extraBinder...)
+		tail = append([]byte{byte(hlen)}, extraBinder...)
+	case 3:
+		head = append([]byte{5}, extraBinder[:5]...)
+	}
+	nbLen := len(head) + len(binders) + len(tail)
 	extData := append([]byte{byte(len(nid) >> 8), byte(len(nid))}, nid...)
 	extLen := len(extData) + 2 + nbLen
 	// everything of the body before the pre_shared_key extension
@@ -128,13 +144,11 @@ func (f *pskRewriter) rewrite(rec []byte) []byte {
 	if len(binders) != 1+hlen {
 		return rec // the genuine hello did not carry exactly one binder of this hash
 	}
-	junk := make([]byte, hlen)
-	kit.NewRng(uint64(len(f.Extra))*0x9e37 + uint64(f.Suite)).Fill(junk)
 	msg := append(truncated, byte(nbLen>>8), byte(nbLen))
-	msg = append(msg, byte(hlen))
-	msg = append(msg, junk...)
+	msg = append(msg, head...)
 	msg = append(msg, byte(hlen))
 	msg = append(msg, binder...)
+	msg = append(msg, tail...)
 	if len(msg) > 16384 {
 		return rec
 	}
